@@ -43,6 +43,8 @@ def py_rect_maxvol(
     --------
     rect_maxvol
     """
+    if not np.issubdtype(A.dtype, np.inexact):
+        A = A.astype(np.float64)  # the BLAS/LAPACK routines below need a floating-point matrix
     # tol2 - square of parameter tol
     tol2 = tol**2
     # N - number of rows, r - number of columns of matrix A
@@ -121,6 +123,8 @@ def py_maxvol(A, tol=1.05, max_iters=100, top_k_index=-1):
     # some work on parameters
     if tol < 1:
         tol = 1.0
+    if not np.issubdtype(A.dtype, np.inexact):
+        A = A.astype(np.float64)  # the BLAS/LAPACK routines below need a floating-point matrix
     N, r = A.shape
     if N <= r:
         return np.arange(N, dtype=np.int32), np.eye(N, dtype=A.dtype)
